@@ -21,6 +21,8 @@ type mgrWorld struct {
 	ids    []string
 	gone   map[string]bool
 	viaMgr bool
+	engs   map[string]pt.TableEngine // the engines as created (the engine twin addresses these directly)
+	never  []string                  // ids that never named a table (including ids of refused creations)
 }
 
 func init() { RegisterWorld("mgr", func() World { return &mgrWorld{} }) }
@@ -33,7 +35,7 @@ func (w *mgrWorld) tablesJSON(except string) map[string]string {
 		if id == except || w.gone[id] {
 			continue
 		}
-		if e, err := w.mgr.GetTableEngine(id); err == nil {
+		if e := w.engs[id]; e != nil {
 			j, _ := e.GetTable().GetJSON()
 			out[id] = j
 		}
@@ -53,6 +55,8 @@ func (w *mgrWorld) Run(c *Ctx) {
 	w.viaMgr = c.Job.Override["mgr_mode"] != "engine"
 	c.Cfg["mgr_mode"] = map[bool]string{true: "manager", false: "engine"}[w.viaMgr]
 	w.gone = map[string]bool{}
+	w.engs = map[string]pt.TableEngine{}
+	w.never = []string{"never-created"}
 	w.mgr = pt.NewManager()
 	nT := 1 + c.CfgInt("tables", 0, 4)
 	nOps := 10 + c.CfgInt("mgr_ops", 0, 50)
@@ -79,7 +83,7 @@ func (w *mgrWorld) Run(c *Ctx) {
 			}
 			if w.viaMgr {
 				w.mgr.SetUpTableGame(tid, gc, parts)
-			} else if e, err := w.mgr.GetTableEngine(tid); err == nil && !w.gone[tid] {
+			} else if e := w.engs[tid]; e != nil && !w.gone[tid] {
 				// (a closed / released table is no longer addressable through the manager)
 				e.SetUpTableGame(gc, parts)
 			}
@@ -92,6 +96,9 @@ func (w *mgrWorld) Run(c *Ctx) {
 			Blind: pt.TableBlindState{Level: 1, Ante: 0, Dealer: 0, SB: 10, BB: 20}})
 		c.Logf("CREATE %s -> %v", id, err)
 		w.ids = append(w.ids, id)
+		if e, gerr := w.mgr.GetTableEngine(id); gerr == nil {
+			w.engs[id] = e
+		}
 	}
 	players := []string{"a", "b", "c", "d", "e", "f"}
 	for k := 0; k < nOps && !c.Stopped(); k++ {
@@ -101,7 +108,48 @@ func (w *mgrWorld) Run(c *Ctx) {
 		case 0:
 			id = w.ids[st.Draw(len(w.ids))]
 		default:
-			id = "never-created"
+			id = w.never[st.Draw(len(w.never))]
+		}
+		if st.Chance(1, 12) {
+			// A creation that is refused (more players than seats; two players on one seat): the id it named
+			// stays unknown, and a live table of that id is not touched.
+			cid := fmt.Sprintf("F%d", len(w.never))
+			live := st.Chance(1, 2)
+			if live {
+				cid = w.ids[st.Draw(len(w.ids))]
+			}
+			bad := pt.TableSetting{TableID: cid,
+				Meta:  pt.TableMeta{CompetitionID: "c1", Rule: pt.CompetitionRule_Default, Mode: pt.CompetitionMode_CT, MaxDuration: 36000, TableMaxSeatCount: 2, TableMinPlayerCount: 2, MinChipUnit: 1, ActionTime: 5},
+				Blind: pt.TableBlindState{Level: 1, Ante: 0, Dealer: 0, SB: 10, BB: 20}}
+			if st.Chance(1, 2) {
+				bad.JoinPlayers = []pt.JoinPlayer{{PlayerID: "x", RedeemChips: 100, Seat: 0}, {PlayerID: "y", RedeemChips: 100, Seat: 1}, {PlayerID: "z", RedeemChips: 100, Seat: -1}}
+			} else {
+				bad.JoinPlayers = []pt.JoinPlayer{{PlayerID: "x", RedeemChips: 100, Seat: 1}, {PlayerID: "y", RedeemChips: 100, Seat: 1}}
+			}
+			var cerr error
+			var before, after map[string]string
+			simrt.Atomic(func() {
+				before = w.tablesJSON("")
+				if w.viaMgr {
+					_, cerr = w.mgr.CreateTable(pt.NewTableEngineOptions(), pt.NewTableEngineCallbacks(), bad)
+				} else {
+					_, cerr = pt.NewTableEngine(pt.NewTableEngineOptions(), pt.WithGameBackend(pt.NewNativeGameBackend())).CreateTable(bad)
+				}
+				after = w.tablesJSON("")
+			})
+			c.Logf("CREATE-REFUSED %s (live=%v) -> %v", cid, live, cerr != nil)
+			c.Judged("C17.refused_creation")
+			if cerr == nil {
+				c.Res.Infra = append(c.Res.Infra, "harness: the invalid table setting was accepted")
+			}
+			for _, tid := range w.ids {
+				if b, ok := before[tid]; ok && after[tid] != b {
+					c.Viol("C17", "C17.other_table_affected", map[string]any{"op": "CreateTable(refused)"}, "a refused Manager.CreateTable(%s) changed table %s: %s", cid, tid, firstDiff(b, after[tid]))
+				}
+			}
+			if !live {
+				w.never = append(w.never, cid)
+			}
 		}
 		pid := players[st.Draw(len(players))]
 		chips := int64(50 + st.Draw(500))
@@ -173,7 +221,12 @@ func (w *mgrWorld) Run(c *Ctx) {
 		op := ops[st.Pick(wts...)]
 		var res string
 		var err error
-		expectNotFound := id == "never-created" || w.gone[id]
+		expectNotFound := w.gone[id]
+		for _, nid := range w.never {
+			if nid == id {
+				expectNotFound = true
+			}
+		}
 		if w.viaMgr {
 			var before, after map[string]string
 			atomic := simrt.Atomic(func() {
@@ -202,7 +255,7 @@ func (w *mgrWorld) Run(c *Ctx) {
 				_ = w.tablesJSON(id)
 				if expectNotFound {
 					err = pt.ErrManagerTableNotFound
-				} else if e, gerr := w.mgr.GetTableEngine(id); gerr != nil {
+				} else if e := w.engs[id]; e == nil {
 					err = pt.ErrManagerTableNotFound
 				} else {
 					res, err = op.eng(e)
